@@ -5,7 +5,7 @@ package main
 //
 // Enumerated (full product): for one and for two (trip, vehicle) pairs, the association
 // expressed by {trip update carrying a vehicle descriptor, vehicle position carrying a trip
-// descriptor, both} x vehicle descriptor {id, label only, none} x trip descriptor {trip id,
+// descriptor, both} x vehicle descriptor {id, label only, none, present but empty} x trip descriptor {trip id,
 // route+direction+start} x optional unrelated trip / unrelated vehicle / alert mentioning
 // the trip, x ALL entity orders (n <= 5) x all map rotations.
 // Oracle (invariant, no expected value): both sides of every association exist, both links
@@ -22,7 +22,7 @@ import (
 
 type assocPair struct {
 	expr  int // 0 TU only, 1 VP only, 2 TU+VP both express it, 3 TU+VP only the TU expresses it, 4 TU+VP only the VP expresses it
-	vdesc int // 0 id, 1 label only, 2 none
+	vdesc int // 0 id, 1 label only, 2 none, 3 present but empty (on the vehicle position only)
 	tdesc int // 0 trip id, 1 route+direction+start
 	td    *gtfsrt.TripDescriptor
 	vd    *gtfsrt.VehicleDescriptor
@@ -41,7 +41,7 @@ type assocMsg struct {
 }
 
 var exprNames = []string{"TU", "VP", "TU+VP", "TU(assoc)+VP", "TU+VP(assoc)"}
-var vdescNames = []string{"id", "label", "none"}
+var vdescNames = []string{"id", "label", "none", "empty"}
 var tdescNames = []string{"tripid", "route+dir+start"}
 
 func genAssoc(c *Ctx, nPairs int, withExtras bool, withConflicts bool) *assocMsg {
@@ -50,7 +50,7 @@ func genAssoc(c *Ctx, nPairs int, withExtras bool, withConflicts bool) *assocMsg
 	var key strings.Builder
 	for i := 0; i < nPairs; i++ {
 		p := fmt.Sprintf("pair%d.", i+1)
-		ap := &assocPair{expr: c.Free(p+"expressed_by", 5), vdesc: c.Free(p+"vehicle_desc", 3), tdesc: c.Free(p+"trip_desc", 2)}
+		ap := &assocPair{expr: c.Free(p+"expressed_by", 5), vdesc: c.Free(p+"vehicle_desc", 4), tdesc: c.Free(p+"trip_desc", 2)}
 		if ap.tdesc == 0 {
 			ap.td = &gtfsrt.TripDescriptor{TripId: sp(fmt.Sprintf("T%d", i+1)), RouteId: sp("R")}
 		} else {
@@ -82,6 +82,8 @@ func genAssoc(c *Ctx, nPairs int, withExtras bool, withConflicts bool) *assocMsg
 			}
 			if ap.vd != nil {
 				vp.Vehicle = cloneVD(ap.vd)
+			} else if ap.vdesc == 3 {
+				vp.Vehicle = &gtfsrt.VehicleDescriptor{} // a descriptor without any field: still a vehicle without id
 			}
 			ents = append(ents, &gtfsrt.FeedEntity{Id: sp(fmt.Sprintf("vp%d", i+1)), Vehicle: vp})
 		}
@@ -247,7 +249,7 @@ func c04Harness(nPairs int, extras bool) Harness {
 					c.Fail("vehicle.Trip.Vehicle-content:"+sigSuffix, "%s: Vehicle.Trip.Vehicle is not this vehicle\n got %s\nwant %s", pn, got, want)
 				}
 			}
-			if ap.vdesc == 2 {
+			if ap.vdesc >= 2 {
 				c.Witness("association_with_idless_vehicle")
 			}
 			if ap.expr == 2 {
@@ -274,7 +276,7 @@ func init() {
 	register(&Check{
 		ID:    "C04",
 		Level: "model_checking",
-		Rule: "full product: 1 pair (+ optional unrelated trip, unrelated vehicle, alert mentioning the trip) and 2 pairs; association expressed by {TU, VP, both} x vehicle descriptor {id, label only, none} x trip descriptor {trip id, route+direction+start}; all n! entity orders (n<=5); all map rotations at every library range; thorough adds 2 pairs with extras; " +
+		Rule: "full product: 1 pair (+ optional unrelated trip, unrelated vehicle, alert mentioning the trip) and 2 pairs; association expressed by {TU, VP, both} x vehicle descriptor {id, label only, none, present but empty} x trip descriptor {trip id, route+direction+start}; all n! entity orders (n<=5); all map rotations at every library range; thorough adds 2 pairs with extras; " +
 			"non-trivial = every distinct message; oracle = link invariants on the real result",
 		Assumptions: []string{"entries are located by identifier, id-less vehicles by the stop id of their position entity"},
 		Scenarios: func(tier string) []*Scenario {
